@@ -202,3 +202,62 @@ def targets(mdims=(1, 2, 3)):
     return [Target('logic_sim', 'LogicSim.s_to_c', [s_to_c_config(m) for m in mdims], instantiate='fallback'),
             Target('logic_sim', 'LogicSim.c_to_s', [c_to_s_config(m) for m in mdims], instantiate='fallback'),
             Target('logic_sim', 'LogicSim.s_ppo_to_ppi', [ppo_to_ppi_config(m) for m in mdims], instantiate='fallback')]
+
+
+# ------------------------------------------------------------------------------------------------------------------ LogicSim.cycle
+class SeqSelf(Model):
+    """self of LogicSim.cycle: the four phase methods append to a ghost call log  heap['log'] : position -> code, heap['log_len']"""
+    CODES = {'s_to_c': 1, 'c_prop': 2, 'c_to_s': 3, 's_ppo_to_ppi': 4}
+
+    def m_getattr(self, ex, st, name, node):
+        if name not in self.CODES:
+            raise NotInSubset(f'self.{name} in cycle')
+        code = self.CODES[name]
+
+        class M(Model):
+            def m_call(self_, ex_, st_, args, kwargs, node_):
+                if name == 'c_prop':
+                    ok = (len(args) == 1 and args[0] is st_.env['inject_cb'] and not kwargs) or (not args and kwargs.get('inject_cb') is st_.env['inject_cb'] and len(kwargs) == 1)
+                    ex_.prove(st_, 'call:c_prop gets the inject_cb argument of cycle', ok, node_)
+                else:
+                    ex_.prove(st_, f'call:{name} takes no argument', not args and not kwargs, node_)
+                n = to_int(st_.heap['log_len'])
+                st_.heap['log'] = z3.Store(st_.heap['log'], n, code)
+                st_.heap['log_len'] = SInt(n + 1)
+                return None
+        return M()
+
+
+class Cb(Model):
+    pass
+
+
+def cycle_config():
+    def setup(ex):
+        st = State()
+        k = ex.fv('cycles', 'int')
+        st.assume(SBool(k.e >= 0))
+        st.heap['log'] = z3.K(I, z3.IntVal(0))
+        st.heap['log_len'] = SInt(z3.IntVal(0))
+        st.env.update(self=SeqSelf(), cycles=k, inject_cb=Cb())
+        ex.g = dict(k=k.e)
+        return st
+
+    def inv(ex, st):
+        i = to_int(st.env['__k0'])
+        j = z3.Int('j')
+        yield 'four calls per finished cycle', SBool(to_int(st.heap['log_len']) == 4 * i)
+        yield 'the calls of every finished cycle are s_to_c, c_prop, c_to_s, s_ppo_to_ppi in this order', \
+            SBool(z3.ForAll([j], z3.Implies(z3.And(0 <= j, j < 4 * i), st.heap['log'][j] == j % 4 + 1)))
+
+    def post(ex, st):
+        g = ex.g
+        j = z3.Int('j')
+        yield 'cycle(k) = k times (s_to_c; c_prop(inject_cb); c_to_s; s_ppo_to_ppi), nothing else', \
+            SBool(z3.And(to_int(st.heap['log_len']) == 4 * g['k'], z3.ForAll([j], z3.Implies(z3.And(0 <= j, j < 4 * g['k']), st.heap['log'][j] == j % 4 + 1))))
+        ex.prove(st, 'mustfail:nothing is ever called', SBool(to_int(st.heap['log_len']) == 0), ex.fn, expect='refuted')
+    return Config('any number of cycles', {'post': post, 'loops': {0: {'inv': inv, 'modifies': ['log', 'log_len'], 'kinds': {}}}}, setup, None)
+
+
+def targets_cycle():
+    return [Target('logic_sim', 'LogicSim.cycle', [cycle_config()], instantiate='fallback', note='call sequence of the four phases (ghost log)')]
